@@ -168,10 +168,19 @@ FP_DOMAIN = {'p': (1e-10, 1e10), 'r': (1e-8, 1e8), 'h': (-1e3, 1e3)}
 FP_CLAIM = 'P+ >= 0 and not NaN'
 FP_CANARIES = [('innovation covariance H P H^T - R (negative / NaN variance in binary64)', ('HP @ H.T + R', 'HP @ H.T - R'), 'quick'),
                ('short-form covariance update P - K S K^T (equal over the reals, negative variance in binary64)',
-                ('U.dot(P).dot(U.T) + K.dot(R).dot(K.T)', 'P - K.dot(S).dot(K.T)'), 'thorough')]
+                ('U.dot(P).dot(U.T) + K.dot(R).dot(K.T)', 'P - K.dot(S).dot(K.T)'), 'quick')]
 
 
-def _fp_term(variant, mutate=None):
+FP_CORNERS = {
+    # sub-boxes of FP_DOMAIN where cancellation is extreme; implied by the whole-domain claim (so
+    # redundant when that is `unsat`), but a solver finds a counterexample there in seconds where
+    # the whole domain takes minutes
+    'diffuse prior, precise measurement': {'p': (1e8, 1e10), 'r': (1e-8, 1e-7), 'h': (0.5, 2.0)},
+    'tight prior, uninformative measurement': {'p': (1e-10, 1e-9), 'r': (1e7, 1e8), 'h': (1e-3, 1e-2)},
+}
+
+
+def _fp_term(variant, mutate=None, domain=None):
     """P+[0, 0] of the real kalman.correct executed on 1x1 operands of binary64 terms"""
     import z3
     import pyins.kalman as KF
@@ -182,7 +191,7 @@ def _fp_term(variant, mutate=None):
     f = fpexec.load(KF, 'correct', N, variant, mutate)
     x1, P1, inn = f(O([N(v['x'])]), O([[N(v['p'])]]), O([N(v['z'])]), O([[N(v['h'])]]), O([[N(v['r'])]]))
     dom = []
-    for n, (lo, hi) in FP_DOMAIN.items():
+    for n, (lo, hi) in (domain or FP_DOMAIN).items():
         dom += [z3.fpGEQ(v[n], fp.fpval(lo)), z3.fpLEQ(v[n], fp.fpval(hi))]
     pp = P1[0, 0].e
     return fpexec.smt2(dom, z3.Not(z3.fpGEQ(pp, fp.fpval(0.0))), ['p', 'r', 'h'])
@@ -194,16 +203,18 @@ def fp_start(run):
     from .. import fpexec
     import pyins.kalman as KF
     timeout = 240 if run.tier == 'quick' else 1500
-    pool = ThreadPoolExecutor(6)
+    pool = ThreadPoolExecutor(10)
     jobs = []
     for variant in fpexec.VARIANTS:
         jobs.append(('claim', variant, None, pool.submit(fpexec.cvc5_run, _fp_term(variant), timeout)))
+        for cname, dom in FP_CORNERS.items():
+            jobs.append(('claim', variant + ', sub-box: ' + cname, None, pool.submit(fpexec.cvc5_run, _fp_term(variant, None, dom), timeout)))
     for name, mut, tier in FP_CANARIES:
         if tier == 'thorough' and run.tier != 'thorough':
             continue
         for variant in fpexec.VARIANTS[:1] if tier == 'quick' else fpexec.VARIANTS:
             try:
-                jobs.append(('canary', variant, (name, mut), pool.submit(fpexec.cvc5_run, _fp_term(variant, mut), timeout)))
+                jobs.append(('canary', variant, (name, mut), pool.submit(fpexec.cvc5_run, _fp_term(variant, mut, FP_CORNERS['diffuse prior, precise measurement'] if 'short-form' in name else None), timeout)))
             except KeyError as e:
                 if not any(c['name'] == name for c in run.canaries):
                     run.canary(name, False, str(e))
@@ -266,7 +277,7 @@ def fp_finish(run, started):
             res = common.run_replays([dict(spec, property=PROP)])[0]
             if res.get('violated'):
                 run.violation(what + '; real code: %s' % (res.get('detail'),), common.write_replay(PROP, spec), res.get('detail'))
-            elif variant == platform or platform is None:
+            elif variant.split(',')[0] == platform or platform is None:
                 run.error('%s: solver model %s does not reproduce on the compiled code - inconclusive' % (what, spec['point']))
             else:
                 run.sample({'fp_claim': what, 'result': 'sat for a potrs model the linked LAPACK does not follow; compiled code satisfies the claim at the model', 'point': spec['point']})
